@@ -54,6 +54,8 @@ type RefEnv struct {
 	Choices  map[string][]string
 	Faults   map[string]Fault
 	MaxSteps int // call-time override of the top-level limit (0 = none)
+	// SubMaxSteps: call-time step limits designated to nested graphs (graph name -> limit)
+	SubMaxSteps map[string]int
 }
 
 func (r *RefResult) ExecMultiset() []string {
@@ -126,7 +128,7 @@ func evalNode(g *GraphSpec, n *NodeSpec, in V, env *RefEnv, res *RefResult) (V, 
 		}
 		res.SubIn[n.Key] = append(res.SubIn[n.Key], in)
 		sub := &RefResult{SubIn: res.SubIn, StateLog: res.StateLog, Ran: map[string]bool{}, Skipped: map[string]bool{}, MustRun: map[string]bool{}, Branch: res.Branch}
-		senv := &RefEnv{Choices: env.Choices, Faults: env.Faults}
+		senv := &RefEnv{Choices: env.Choices, Faults: env.Faults, SubMaxSteps: env.SubMaxSteps}
 		if n.Sub.Mode == Pregel {
 			evalPregel(n.Sub, in, senv, sub, false)
 		} else {
@@ -206,6 +208,9 @@ func evalPregel(g *GraphSpec, in V, env *RefEnv, res *RefResult, top bool) {
 	}
 	if top && env.MaxSteps > 0 {
 		maxSteps = env.MaxSteps
+	}
+	if lim, ok := env.SubMaxSteps[g.Name]; ok && !top && lim > 0 {
+		maxSteps = lim
 	}
 	pending := map[string]map[string]V{}
 	prov := map[string]map[string]map[string]bool{} // to -> from -> provenance of that value
